@@ -71,19 +71,21 @@ CHECKS["C11"] = dict(
          "benign_junk_alone_is_silent, corrupt_front_is_abandoned (recovery once more than the threshold has arrived), with 'corrupt' decidable and evaluated "
          "by the model on generated truncations. Correspondence: the real Buffer vs the model with the parser instantiated by the recorded answers of "
          "ElementTree.fromstring / from_string, on soups, benign junk, truncation at every position, thresholds {16,128,2048,None}.",
-    note=NOTE_BASE + "The one parser fact used by the junk theorems (an accepted text contains a known-tag opener) is a hypothesis of those theorems, checked on every recorded parser answer.",
+    note=NOTE_BASE + "The one parser fact used by the junk theorems (an accepted text contains a known-tag opener) is a hypothesis of the generic theorems, checked on every recorded answer of the real parser, and a THEOREM for the concrete parser model (…_for_the_concrete_parser).",
     technique="Coq proof (generic in the parser; invariants by induction on fuel/length) + control-flow correspondence with recorded parser answers",
     design="4/C11")
 CHECKS["C02"] = dict(
     text="Theorems framing_lossless_ordered_prompt and each_message_delivered_by_the_call_that_completes_it: for every stream "
          "junk/message/junk/... (any number of messages, junk free of known-tag openers), EVERY partition into pieces, threshold disabled or not "
          "smaller than the messages: all calls terminate, deliveries are exactly the messages in order, each once, and nothing is overdue after any "
-         "call (structural induction over the stream, then over the pieces). Generic in the parser; its premises (Framing.spelling per message spelling: "
-         "parsed whole, no proper prefix parses, opener at 0, single final '>', fits; and parse_needs_opener) are decidable and evaluated by the model on "
-         "every generated spelling (spell_check_sound) - PARTIAL only in that they are not yet theorems of the concrete XML model. Correspondence: real "
+         "call (structural induction over the stream, then over the pieces). Generic in the parser; the premise parse_needs_opener is PROVED of the "
+         "concrete parser (the_concrete_parser_needs_an_opener: lexer invariant over all modes, root = first start tag, registered tag = buffer tag), "
+         "giving concrete_framing_lossless_ordered_prompt; the premise Framing.spelling per message spelling (parsed whole, no proper prefix parses, "
+         "opener at 0, single final '>', fits) is decidable and evaluated by the model on every generated spelling (spell_check_sound) - PARTIAL only "
+         "in that spelling is not yet a theorem about every printed message. Correspondence: real "
          "Buffer and the three real receive loops vs the model with the concrete XML+message parser; every 1-cut, every 2-cut of short streams, "
          "per-character, random cuts, three thresholds.",
-    note=NOTE_BASE + "PARTIAL: prefix-freeness of well-formed documents and 'accepted text contains a known opener' are premises checked per instance, not proved for Xml.Lex.",
+    note=NOTE_BASE + "PARTIAL: the per-spelling premise (prefix-freeness of printed documents) is checked per instance, not proved for Xml.Lex; 'accepted text contains a known opener' is proved.",
     technique="Coq proof (structural induction over segmented streams; generic parser with decidable premises) + correspondence incl. real receive loops",
     design="4/C02")
 CHECKS["C07"] = dict(
